@@ -933,3 +933,46 @@ package gedcom
 //@   loop 1 invariant bound: rangeindex < len(pairs)
 //@   ensures symmetric: result == exists(j, 0, len(pairs), (indIs(pairs[j].Left, findPair.Left) && indIs(pairs[j].Right, findPair.Right)) || (indIs(pairs[j].Left, findPair.Right) && indIs(pairs[j].Right, findPair.Left)))
 //@   assigns nothing
+
+// wrong event order: for every pair (event of an earlier group, event of a
+// later group) visited, one warning iff both dates are valid and the later
+// group's date range is entirely before the earlier one's (C06 decides what
+// Compare returns).
+//@ func IndividualNode.incorrectEventOrderWarnings
+//@   props C20
+//@   ghost nE int = 0
+//@   oncall NewIncorrectEventOrderWarning do nE = nE + 1
+//@   oncall NewIncorrectEventOrderWarning check names: arg0 == futureEvent.Event && arg2 == event.Event
+//@   loop 8 iter iff: nE - old(nE) == ite(dValid(event.Date) && dValid(futureEvent.Date) && comparison == DateRangeComparisonEntirelyBefore, 1, 0)
+//@   loop 8 iter grows: len(warnings) - old(len(warnings)) == nE - old(nE)
+
+// several SEX lines.
+//@ func IndividualNode.multipleSexesWarnings
+//@   props C20
+//@   ghost n int = 0
+//@   oncall NewMultipleSexesWarning do n = n + 1
+//@   oncall NewMultipleSexesWarning check names: arg0 == node && len(arg1) > 1
+//@   ensures count: len(result) == n && n <= 1
+
+// The per-node reports are the concatenation of their parts: nothing is
+// dropped or added between the emitters and the caller.
+//@ func FamilyNode.Warnings
+//@   props C20
+//@   ghost a int = 0
+//@   ghost b int = 0
+//@   ghost c int = 0
+//@   ghost d int = 0
+//@   oncall FamilyNode.childrenBornBeforeParentsWarnings do a = len(result)
+//@   oncall FamilyNode.siblingsBornTooCloseWarnings do b = len(result)
+//@   oncall FamilyNode.marriedOutOfRange do c = len(result)
+//@   oncall FamilyNode.inversePartnerWarnings do d = len(result)
+//@   ensures all: len(result) == a + b + c + d
+//@ func IndividualNode.Warnings
+//@   props C20
+//@   ghost a int = 0
+//@   ghost b int = 0
+//@   ghost c int = 0
+//@   oncall IndividualNode.incorrectEventOrderWarnings do a = len(result)
+//@   oncall IndividualNode.tooOldWarnings do b = len(result)
+//@   oncall IndividualNode.multipleSexesWarnings do c = len(result)
+//@   ensures all: len(result) == a + b + c
